@@ -423,3 +423,50 @@ let judge_c10 (euis : n list) (steps : step list) : string =
   if v <> "ok" then v else
   let v = judge_c07 euis steps in
   if v <> "ok" then v else judge_nonce_once steps
+
+
+(* ---- forced schedules of two frames of one device: the clauses "however the copies arrive ... concurrently" ---- *)
+let judge_sched (which : string) g (obs : string) (pre : srv) (eui : n) : string =
+  match split_obs obs with
+  | None -> "bad:sched-unreadable-observation"
+  | Some (ds, _, dump) ->
+    let devs = parse_dump dump in
+    let dv = match find_dev devs (hex_of_n eui) with Some d -> d | None -> failwith "device missing from dump" in
+    let pre_row = match (dt_get pre.s_tab eui).ds_row with Some r -> r | None -> failwith "no row" in
+    let kind = g "kind" in
+    let raws = List.map (fun dstr -> bytes_of_hex (List.hd (String.split_on_char ':' dstr))) ds in
+    let data_downs = List.filter (fun raw -> match raw with b0 :: _ -> (int_of_n b0 / 32 = 3 || int_of_n b0 / 32 = 5) | [] -> false) raws in
+    let accepts = List.filter (fun raw -> match raw with b0 :: _ -> int_of_n b0 / 32 = 1 | [] -> false) raws in
+    let fcnts = List.filter_map frame_fcnt data_downs in
+    let dup l = List.length (List.sort_uniq compare l) <> List.length l in
+    let uplink_fcnt tag = match parse_event (g tag) with Rx (rx, _, _) -> frame_fcnt rx.rx_raw | _ -> None in
+    (match which with
+     | "C03" ->
+       if kind = "copies" && List.length dv.x_inbox > 1 then "bad:sched-copies-recorded-twice"
+       else (match uplink_fcnt "f1", uplink_fcnt "f2" with
+           | Some a, Some b when not pre_row.d_relaxed ->
+             (* the expected counter ends past every recorded counter *)
+             let recorded = List.length dv.x_inbox in
+             let top = if kind = "copies" then a else if recorded >= 2 then max a b else -1 in
+             if top >= 0 && top < 65535 && recorded > 0 && dv.x_fup <= top then "bad:sched-expected-counter-regressed" else "ok"
+           | _ -> "ok")
+     | "C07" ->
+       if dup fcnts then "bad:sched-downlink-counter-reused"
+       else if List.length fcnts > 0 && dv.x_fdn <> (int_of_n pre_row.d_fdn + List.length fcnts) land 0xffff then "bad:sched-downlink-counter-not-advanced-per-frame"
+       else "ok"
+     | "C09" ->
+       if kind = "copies" && List.length data_downs > 1 then "bad:sched-copies-answered-twice" else "ok"
+     | "C05" ->
+       if List.length accepts > 1 then "bad:sched-devnonce-honoured-twice"
+       else if List.length accepts = 1 then begin
+         (* the stored session is the one the accept conveys *)
+         let raw1 = match parse_event (g "f1") with Rx (rx, _, _) -> rx.rx_raw | _ -> [] in
+         let dn2 = take 2 (drop 17 raw1) in
+         match ref_on_join_accept e pre_row.d_appkey dn2 (List.hd accepts) with
+         | Some ((addr, nwk), app) ->
+           if hex_of_bytes nwk = dv.x_nwk && hex_of_bytes app = dv.x_app && hex_of_n addr = dv.x_addr then "ok"
+           else "bad:sched-stored-session-differs-from-accept"
+         | None -> "bad:sched-accept-not-decodable-by-device"
+       end
+       else "ok"
+     | _ -> "ok")
